@@ -103,4 +103,116 @@ example : decodeEvent (encodeEvent { id := "i", pubkey := "p", createdAt := -5, 
     = .ok { id := "i", pubkey := "p", createdAt := -5, kind := 30023, tags := [["d", "x"], ["t"]], content := "<&>", sig := "s" } := by
   exact event_roundtrip _ (by decide) (by decide)
 
+/-- splitting off a machine-readable prefix loses nothing: prefix ++ rest is the text -/
+theorem parsePrefix_join (s : String) : (parsePrefix s).1 ++ (parsePrefix s).2 = s := by
+  unfold parsePrefix
+  cases hf : knownPrefixes.find? (fun p => p.toList.isPrefixOf s.toList) with
+  | none => simp
+  | some p =>
+    have hp := List.find?_some hf
+    simp only []
+    apply String.toList_injective
+    simp only [String.toList_append, String.toList_ofList]
+    have : p.toList <+: s.toList := List.isPrefixOf_iff_prefix.1 hp
+    obtain ⟨t, ht⟩ := this
+    rw [← ht]
+    simp
+
+/-- a text that carries one of the six known prefixes is split at exactly that prefix -/
+theorem parsePrefix_known (p : String) (hp : p ∈ knownPrefixes) (m : String) : parsePrefix (p ++ m) = (p, m) := by
+  -- the known prefixes start with six different letters
+  have hfirst : ∀ q ∈ knownPrefixes, q.toList.isPrefixOf (p ++ m).toList = true → q = p := by
+    intro q hq hpre
+    have hq' : q.toList <+: p.toList ++ m.toList := by
+      simpa [String.toList_append] using List.isPrefixOf_iff_prefix.1 hpre
+    simp only [knownPrefixes, Gen.prefixPoW, Gen.prefixDuplicate, Gen.prefixBlocked, Gen.prefixRateLimited,
+      Gen.prefixInvalid, Gen.prefixError, List.mem_cons, List.not_mem_nil, or_false] at hp hq
+    rcases hp with rfl | rfl | rfl | rfl | rfl | rfl <;> rcases hq with rfl | rfl | rfl | rfl | rfl | rfl <;>
+      first
+      | rfl
+      | (exfalso
+         obtain ⟨t, ht⟩ := hq'
+         have := congrArg List.head? ht
+         simp at this)
+  unfold parsePrefix
+  have hfind : knownPrefixes.find? (fun q => q.toList.isPrefixOf (p ++ m).toList) = some p := by
+    have hpp : p.toList.isPrefixOf (p ++ m).toList = true := by
+      rw [List.isPrefixOf_iff_prefix]; simp [String.toList_append]
+    cases hf : knownPrefixes.find? (fun q => q.toList.isPrefixOf (p ++ m).toList) with
+    | none =>
+      have := List.find?_eq_none.1 hf p hp
+      simp [hpp] at this
+    | some q =>
+      have hq := List.find?_some hf
+      have hqm := List.mem_of_find?_eq_some hf
+      rw [hfirst q hqm hq]
+  rw [hfind]
+  simp only [Prod.mk.injEq, true_and]
+  apply String.toList_injective
+  simp [String.toList_append]
+
+/-- **C10, OK and CLOSED round trip** (compared as `prefix ++ text`, which is what the wire carries): for every
+    id / subscription id, verdict, prefix and text the decoded message has the same id, verdict and full text; when
+    the prefix is one of the six machine-readable ones it is recovered exactly. -/
+theorem ok_roundtrip (id : String) (acc : Bool) (p m : String) :
+    ∃ p' m', decodeServerOK (encodeServerMsg (.ok id acc p m)) = .ok (.ok id acc p' m') ∧ p' ++ m' = p ++ m := by
+  refine ⟨(parsePrefix (p ++ m)).1, (parsePrefix (p ++ m)).2, ?_, parsePrefix_join _⟩
+  simp [decodeServerOK, encodeServerMsg, decRawArray, decStr, decBool, Gen.arityServerOK, Gen.labelBadServerOK, Gen.labelOK,
+    bind, Except.bind, pure, Except.pure, throw, throwThe, MonadExceptOf.throw]
+
+theorem ok_roundtrip_known (id : String) (acc : Bool) (p m : String) (hp : p ∈ knownPrefixes) :
+    decodeServerOK (encodeServerMsg (.ok id acc p m)) = .ok (.ok id acc p m) := by
+  simp [decodeServerOK, encodeServerMsg, decRawArray, decStr, decBool, Gen.arityServerOK, Gen.labelBadServerOK, Gen.labelOK,
+    parsePrefix_known p hp m, bind, Except.bind, pure, Except.pure, throw, throwThe, MonadExceptOf.throw]
+
+theorem closed_roundtrip (sub p m : String) :
+    ∃ p' m', decodeServerClosed (encodeServerMsg (.closed sub p m)) = .ok (.closed sub p' m') ∧ p' ++ m' = p ++ m := by
+  refine ⟨(parsePrefix (p ++ m)).1, (parsePrefix (p ++ m)).2, ?_, parsePrefix_join _⟩
+  simp [decodeServerClosed, encodeServerMsg, decStrArray, decStrsLoose, Except.map, Gen.arityServerClosed,
+    Gen.labelBadServerClosed, Gen.labelClosed, bind, Except.bind, pure, Except.pure, throw, throwThe, MonadExceptOf.throw]
+
+theorem closed_roundtrip_known (sub p m : String) (hp : p ∈ knownPrefixes) :
+    decodeServerClosed (encodeServerMsg (.closed sub p m)) = .ok (.closed sub p m) := by
+  simp [decodeServerClosed, encodeServerMsg, decStrArray, decStrsLoose, Except.map, Gen.arityServerClosed,
+    Gen.labelBadServerClosed, Gen.labelClosed, parsePrefix_known p hp m, bind, Except.bind, pure, Except.pure, throw, throwThe,
+    MonadExceptOf.throw]
+
+/-- **C10, decode-encode-decode = decode** for OK and CLOSED: re-encoding what was decoded and decoding again gives
+    the same message -/
+theorem ok_dec_enc_dec (j : JT) (msg : ServerMsg) (h : decodeServerOK j = .ok msg) :
+    decodeServerOK (encodeServerMsg msg) = .ok msg := by
+  unfold decodeServerOK at h
+  simp only [bind, Except.bind, pure, Except.pure, throw, throwThe, MonadExceptOf.throw] at h
+  cases hr : decRawArray j with
+  | error e => rw [hr] at h; cases h
+  | ok elems =>
+    rw [hr] at h
+    simp only [] at h
+    split at h
+    · cases h
+    · cases hl : decStr (elems.getD 0 .null) with
+      | error e => rw [hl] at h; cases h
+      | ok label =>
+        rw [hl] at h
+        simp only [] at h
+        split at h
+        · cases h
+        · cases hi : decStr (elems.getD 1 .null) with
+          | error e => rw [hi] at h; cases h
+          | ok id =>
+            rw [hi] at h
+            cases hb : decBool (elems.getD 2 .null) with
+            | error e => rw [hb] at h; cases h
+            | ok acc =>
+              rw [hb] at h
+              cases hs : decStr (elems.getD 3 .null) with
+              | error e => rw [hs] at h; cases h
+              | ok raw =>
+                rw [hs] at h
+                simp only [Except.ok.injEq] at h
+                subst h
+                have := parsePrefix_join raw
+                simp [decodeServerOK, encodeServerMsg, decRawArray, decStr, decBool, Gen.arityServerOK, Gen.labelBadServerOK,
+                  Gen.labelOK, this, bind, Except.bind, pure, Except.pure, throw, throwThe, MonadExceptOf.throw]
+
 end Moc.C10
